@@ -34,7 +34,7 @@ DISTINCT_MEASURE = 'distinct (value recipe, option set, dumper) digests with at 
 ASSUMPTIONS = [
     'keys of one mapping / set are drawn from one mutually comparable family (int+float+bool without NaN and without equal values; str; bytes; dates; naive datetimes; aware datetimes), as the property requires',
     'with sort_keys=False values contain no sets (the iteration order of a set is hash-seed dependent and the property promises insertion order for mappings only)',
-    'the fixed point dump(load(dump(x))) == dump(x) is evaluated only when load(dump(x)) equals x type-strictly with sharing (where it does not, the difference is an inexact round trip, i.e. C02, a pure function of the input that this technique does not address); such cases are counted, not alarmed on',
+    'three families of values whose round trip is inexact on the unchanged tree keep an exactness guard on the fixed point (U+0085 / U+2028 / U+2029 in a string; width <= 20; folded style with a long text that has a line beginning with a blank); for everything else the fixed point is unconditional. Historical wording: the fixed point dump(load(dump(x))) == dump(x) is evaluated only when load(dump(x)) equals x type-strictly with sharing (where it does not, the difference is an inexact round trip, i.e. C02, a pure function of the input that this technique does not address); such cases are counted, not alarmed on',
     'worker interpreters are real CPython processes started with PYTHONHASHSEED set; object addresses are additionally shifted by a seeded amount of junk allocation',
     'load order of mappings is a pure function of the input; it is sampled on the same runs (docorder / order clauses) because it costs nothing there',
 ]
@@ -486,12 +486,19 @@ def known_inexact_family(case):
     w = case['opts'].get('width')
     if w is not None and w <= 20:
         return True
+    folded = case['opts'].get('default_style') == '>'
     stack = [case['recipe']]
     while stack:
         rc = stack.pop()
         if isinstance(rc, list):
-            if rc and rc[0] == 'str' and isinstance(rc[1], str) and any(ch in rc[1] for ch in '\x85\u2028\u2029'):
-                return True
+            if rc and rc[0] == 'str' and isinstance(rc[1], str):
+                if any(ch in rc[1] for ch in '\x85\u2028\u2029'):
+                    return True
+                # third family (found when long keys joined the universe): a text longer than a line with a line that
+                # begins with a blank, written in folded style - the emitter folds inside a "more indented" line, whose
+                # breaks the scanner keeps: ' x' * 100 comes back with line feeds in it, on both back-ends (C02 territory)
+                if folded and len(rc[1]) > 30 and any(l[:1] in (' ', '\t') for l in rc[1].split('\n')):
+                    return True
             stack.extend(x for x in rc if isinstance(x, list))
     return False
 
